@@ -878,16 +878,21 @@ def _skip_event(*events, **kwargs):
     differs = False
     for e in events:
         subpaths = _subpaths(e, what, changed)
-        if subpaths is None:
-            if e.old is e.new and e.type != 'triggered':
-                # (nothing to compare, and nothing was attached)
-                continue
-            return False
         # (an event that waited for the end of a batch knows what was
         # reached through the previous subobject when it was replaced
         # and through the new one when it was attached)
         before = getattr(e, 'reached', None) or {}
         after = getattr(e, 'entered', None) or {}
+        if subpaths is None and before:
+            # (a path that does not resolve at the moment: what the
+            # watchers of the method compared when the batch began)
+            subpaths = list(before)
+        if subpaths is None:
+            if e.old is e.new and e.type != 'triggered' and not getattr(e, 'several', False):
+                # (nothing to compare, and nothing was attached)
+                continue
+            else:
+                return False
         for p, what in subpaths:
             old = before[(p, what)] if (p, what) in before else _reached(e.old, p, what)
             new = _reached(e.new, p, what)
@@ -1871,12 +1876,13 @@ class Parameter(_ParameterBase):
             # reached now, on the sub-paths their watchers compared (their
             # dependencies follow the new object already)
             reached, entered = {}, {}
-            for path in compared:
-                try:
-                    reached[path] = _reached(_old, *path)
-                    entered[path] = _reached(val, *path)
-                except Exception:
-                    pass
+            for method, paths in compared.items():
+                for path in paths:
+                    try:
+                        reached.setdefault(method, {})[path] = _reached(_old, *path)
+                        entered.setdefault(method, {})[path] = _reached(val, *path)
+                    except Exception:
+                        pass
             if reached:
                 event = _QueuedEvent.of(event, reached, entered=entered)
 
@@ -2645,7 +2651,7 @@ class Parameters:
     def _update_deps(self_, attribute=None, init=False):
         obj = self_.self
         init_methods = []
-        compared = []   # sub-paths the replaced watchers of `attribute` compared
+        compared = {}   # per method: the sub-paths its replaced watchers of `attribute` compared
         for method, queued, on_init, constant, dynamic in type(obj).param._depends['watch']:
             requeue, places = [], {}
             # On initialization set up constant watchers; otherwise
@@ -2691,8 +2697,8 @@ class Parameters:
                     if wobj is obj and attribute in w.parameter_names and keywords.get('changed') is not None:
                         for path in _subpaths(Event(w.what, attribute, None, None, None, None, None),
                                               keywords.get('what', 'value'), keywords['changed']) or []:
-                            if path not in compared:
-                                compared.append(path)
+                            if path not in compared.setdefault(method, []):
+                                compared[method].append(path)
 
             installed = []
             for key, group in grouped.items():
@@ -3318,12 +3324,15 @@ class Parameters:
 
         if self_._BATCH_WATCH:
             keywords = watcher.fn.keywords if _is_m_caller(watcher.fn) else None
-            reached = dict(getattr(event, 'reached', None) or {})
             # (a method of this very object: Parameter.__set__ has set up
-            # its dependencies again before dispatching; what it recorded of
-            # the new object means nothing to the method of another object)
-            own = bool(keywords) and getattr(keywords.get('function'), '__self__', None) is self_.self_or_cls
-            entered = dict(getattr(event, 'entered', None) or {}) if own else {}
+            # its dependencies again before dispatching, and recorded what
+            # its replaced watchers compared; that means nothing to the
+            # method of another object)
+            function = keywords.get('function') if keywords else None
+            own = function is not None and getattr(function, '__self__', None) is self_.self_or_cls
+            name = getattr(function, '__name__', None)
+            reached = dict((getattr(event, 'reached', None) or {}).get(name, {})) if own else {}
+            entered = dict((getattr(event, 'entered', None) or {}).get(name, {})) if own else {}
             if keywords and keywords.get('changed') is not None:
                 # A method depending on something reached through the
                 # object being replaced: whether that changes is judged at
@@ -3359,6 +3368,7 @@ class Parameters:
                 # first queued assignment to the final value
                 event_dict = OrderedDict()
                 chains = {}
+                several = set()   # parameters assigned different objects in turn
                 qualified = defaultdict(set)
                 for event in self_._events:
                     key = (event.name, event.what)
@@ -3373,16 +3383,19 @@ class Parameters:
                     # when it was attached, its own watchers have announced
                     # that meanwhile (and the method saw all there was).
                     reached = getattr(event, 'reached', None) or {}
-                    if reached and queued_watcher is not None and _is_m_caller(queued_watcher.fn):
+                    chain = None
+                    if queued_watcher is not None and _is_m_caller(queued_watcher.fn):
                         entered = getattr(event, 'entered', None) or {}
                         method = _method_of(queued_watcher.fn)
                         chain = chains.get((key, method))
                         if chain is None:
-                            chain = chains[(key, method)] = {'known': {}, 'attached': {}, 'entered': {},
-                                                             'old': event.old, 'new': event.new}
+                            if reached:
+                                chain = chains[(key, method)] = {'known': {}, 'attached': {}, 'entered': {},
+                                                                 'old': event.old, 'new': event.new}
                         elif event.old is not chain['old'] or event.new is not chain['new']:
                             # (the next assignment of the batch)
                             chain.update(attached=chain['entered'], entered={}, old=event.old, new=event.new)
+                    if chain is not None:
                         told = any(path in chain['attached'] and chain['attached'][path] is not value
                                    and not Comparator.is_equal(chain['attached'][path], value)
                                    for path, value in reached.items())
@@ -3393,6 +3406,7 @@ class Parameters:
                     if first is not None and first.old is not event.old:
                         event = Event(what=event.what, name=event.name, obj=event.obj, cls=event.cls,
                                       old=first.old, new=event.new, type=event.type)
+                        several.add(key)
                     elif type(event) is not Event:
                         event = Event(*event)
                     event_dict[key] = event
@@ -3421,6 +3435,9 @@ class Parameters:
                             chain = chains.get(((event.name, event.what), method))
                             if chain is not None and chain['known']:
                                 events[i] = _QueuedEvent.of(event, dict(chain['known']), entered=dict(chain['entered']))
+                            elif (event.name, event.what) in several:
+                                events[i] = _QueuedEvent.of(event)
+                                events[i].several = True
                     with _batch_call_watchers(self_.self_or_cls, enable=watcher.queued, run=False):
                         self_._execute_watcher(watcher, events)
         except BaseException:
